@@ -24,13 +24,14 @@ from props.c07 import Impl
 from txtorcon.interface import ICircuitListener, IStreamListener
 
 PROPERTY = 'C08'
+HOPS = 2        # two-hop circuits keep histories short enough to include attach + close inside the bound
 
 
 def histories(N):
     out = []
 
     def rec(st, hist, dead):
-        evs = [e for e in M.enabled(st) if (e[0].startswith('C1-') or e[0].startswith('S1-'))
+        evs = [e for e in M.enabled(st, maxhops=HOPS) if (e[0].startswith('C1-') or e[0].startswith('S1-'))
                and not (e[0] == 'C1-LAUNCHED' and 'C' in dead) and not (e[0] == 'S1-NEW' and 'S' in dead)]
         if len(hist) == N or not evs:
             out.append(tuple(hist))
@@ -50,7 +51,7 @@ _H = {}
 
 
 def hist_for(tier):
-    N = 9 if tier == 'quick' else 11
+    N = 8 if tier == 'quick' else 11
     if N not in _H:
         _H[N] = histories(N)
     return _H[N]
@@ -128,13 +129,13 @@ def expansion(hist):
             if kind == 'LAUNCHED':
                 calls.append(('circuit_launched', 1))
                 hops_known = 0
-            elif kind in ('EXTENDED', 'BUILT'):
+            elif kind in ('EXTENDED', 'BUILT', 'BUILT-repurposed'):
                 toks = line.split()
                 path = toks[2].split(',') if len(toks) > 2 and toks[2].startswith('$') else []
                 for i in range(hops_known, len(path)):
                     calls.append(('circuit_extend', 1, path[i][:41]))
                 hops_known = max(hops_known, len(path))
-                if kind == 'BUILT':
+                if kind.startswith('BUILT'):
                     calls.append(('circuit_built', 1))
             elif kind.startswith('CLOSED'):
                 calls.append(('circuit_closed', 1, kwflags(line)))
@@ -275,13 +276,12 @@ def run_waits(hist, p1, p2, which):
         for (ri, r) in recs:
             n = len(r.fires)
             if which == 'built':
-                if i_built is not None and (i_end is None or i_built < i_end) and ri <= (i_end if i_end is not None else len(hist)):
+                # succeeds iff the circuit reached BUILT - whenever the wait was requested (repeated requests share the
+                # outcome) - and fails once Tor closed or failed it without it ever being built
+                if i_built is not None and (i_end is None or i_built < i_end):
                     want = 'ok'
-                elif i_end is not None and ri <= i_end:
+                elif i_end is not None:
                     want = 'err'
-                elif i_end is not None and ri > i_end:
-                    # requested on a dead circuit object: built before -> may succeed; never built -> must not succeed
-                    want = 'ok-or-err' if i_built is not None else 'err-or-pending'
                 else:
                     want = 'pending'
             else:
@@ -444,8 +444,8 @@ def meta(tier):
         rule='every maximal history of <= %d events of one circuit and one stream x (listener add position x remove position) / '
              '(pairs of wait-request positions x {when_built, when_closed}) / (close position x repeated-close position x ack '
              'before or after the CLOSED event x {circuit, stream}); non-trivial: all (every case places at least one operation '
-             'inside a history)' % (9 if tier == 'quick' else 11),
-        bounds=dict(history_len=(9 if tier == 'quick' else 11), histories=len(hist_for(tier)), circuits=1, streams=1),
+             'inside a history)' % (8 if tier == 'quick' else 11),
+        bounds=dict(history_len=(8 if tier == 'quick' else 11), histories=len(hist_for(tier)), circuits=1, streams=1),
         assumptions=['NEWRESOLVE streams are outside this alphabet (the listener interface has no callback for them)',
                      'a listener added late hears nothing for transitions that happened before it was added',
                      'removing a global listener = unlisten() on the live objects + removal from the global list',
